@@ -25,6 +25,16 @@ func c06Expr(e ast.Expr) string {
 		return x.Op.String() + c06Expr(x.X)
 	case *ast.SelectorExpr:
 		return c06Expr(x.X) + "." + x.Sel.Name
+	case *ast.CompositeLit:
+		var els []string
+		for _, el := range x.Elts {
+			els = append(els, c06Expr(el))
+		}
+		return c06Expr(x.Type) + "{" + strings.Join(els, ", ") + "}"
+	case *ast.KeyValueExpr:
+		return c06Expr(x.Key) + ": " + c06Expr(x.Value)
+	case *ast.IndexExpr:
+		return c06Expr(x.X) + "[" + c06Expr(x.Index) + "]"
 	}
 	return exprString(e)
 }
@@ -297,6 +307,90 @@ func extractC06() *lean {
 	l.def("addWriteConds", "List String", leanStrList(writeConds), writeConds)
 	l.def("addWriteOpts", "List String", leanStrList(opts), opts)
 	l.def("addRollbackStmts", "List String", leanStrList(rollback), rollback)
+
+	// ---- the edges: who calls Add / ParseTransaction / WritePayload, and how the state is wired
+	callsWithArgs := func(n ast.Node, prefixes ...string) []string {
+		var out []string
+		ast.Inspect(n, func(m ast.Node) bool {
+			if c, ok := m.(*ast.CallExpr); ok {
+				f := c06Expr(c.Fun)
+				for _, p := range prefixes {
+					if strings.HasPrefix(f, p) {
+						out = append(out, c06Expr(c))
+					}
+				}
+			}
+			return true
+		})
+		return out
+	}
+	methodDecl := func(f *ast.File, name string) *ast.FuncDecl { return funcDecl(f, name) }
+	_, tlf := parseFile("network/transport/v2/transactionlist_handler.go")
+	_, hf := parseFile("network/transport/v2/handlers.go")
+	_, cf := parseFile("network/transport/v2/conversation.go")
+	var lconds, lcalls, pconds2, pcalls, ptconds, ptcalls []string
+	if fd := methodDecl(tlf, "handleTransactionList"); fd != nil {
+		lconds = c06Conds(fd)
+		lcalls = callsWithArgs(fd, "p.state.Add", "subEnvelope.parseTransactions")
+	}
+	if fd := methodDecl(cf, "parseTransactions"); fd != nil {
+		pconds2 = c06Conds(fd)
+		pcalls = callsWithArgs(fd, "dag.ParseTransaction")
+		// how a parse error leaves the loop: the statements of `if err != nil {…}` right after the parse
+		ast.Inspect(fd, func(m ast.Node) bool {
+			if is, ok := m.(*ast.IfStmt); ok && c06Expr(is.Cond) == "err != nil" && len(is.Body.List) == 1 {
+				if _, ok := is.Body.List[0].(*ast.ReturnStmt); ok {
+					pcalls = append(pcalls, "on-error:return")
+				}
+			}
+			return true
+		})
+	}
+	if fd := methodDecl(hf, "handleTransactionPayload"); fd != nil {
+		ptconds = c06Conds(fd)
+		ptcalls = callsWithArgs(fd, "p.state.WritePayload", "hash.SHA256Sum", "p.state.GetTransaction")
+	}
+	l.def("listHandlerConds", "List String", leanStrList(lconds), lconds)
+	l.def("listHandlerCalls", "List String", leanStrList(lcalls), lcalls)
+	l.def("parseTransactionsConds", "List String", leanStrList(pconds2), pconds2)
+	l.def("parseTransactionsCalls", "List String", leanStrList(pcalls), pcalls)
+	l.def("payloadHandlerConds", "List String", leanStrList(ptconds), ptconds)
+	l.def("payloadHandlerCalls", "List String", leanStrList(ptcalls), ptcalls)
+	var wiring, ctconds, ctcalls, clconds, ntconds []string
+	ast.Inspect(nf, func(n ast.Node) bool {
+		switch x := n.(type) {
+		case *ast.CallExpr:
+			if c06Expr(x.Fun) == "dag.NewState" {
+				wiring = append(wiring, c06Expr(x))
+			}
+		case *ast.AssignStmt:
+			if len(x.Lhs) == 1 && c06Expr(x.Lhs[0]) == "nutsKeyResolver" && len(x.Rhs) == 1 {
+				wiring = append(wiring, "nutsKeyResolver := "+c06Expr(x.Rhs[0]))
+			}
+		}
+		return true
+	})
+	if fd := funcDecl(nf, "CreateTransaction"); fd != nil {
+		ctconds = c06Conds(fd)
+		ctcalls = callsWithArgs(fd, "n.state.Head", "n.calculateLamportClock", "dag.NewTransaction", "n.state.Add", "n.isPayloadPresent", "append")
+	}
+	if fd := funcDecl(nf, "calculateLamportClock"); fd != nil {
+		clconds = c06Conds(fd)
+		ast.Inspect(fd, func(m ast.Node) bool {
+			if rs, ok := m.(*ast.ReturnStmt); ok && len(rs.Results) == 2 {
+				clconds = append(clconds, "return "+c06Expr(rs.Results[0]))
+			}
+			return true
+		})
+	}
+	if fd := funcDecl(txf, "NewTransaction"); fd != nil {
+		ntconds = c06Conds(fd)
+	}
+	l.def("stateWiring", "List String", leanStrList(wiring), wiring)
+	l.def("createTxConds", "List String", leanStrList(ctconds), ctconds)
+	l.def("createTxCalls", "List String", leanStrList(ctcalls), ctcalls)
+	l.def("calcClockConds", "List String", leanStrList(clconds), clconds)
+	l.def("newTransactionConds", "List String", leanStrList(ntconds), ntconds)
 
 	// dag.addSingle / dag.add conditions
 	var asc, adc []string
